@@ -55,6 +55,29 @@ func wrongName(g G, documented ...string) string {
 	return "noSuchName"
 }
 
+// unknownAlternativeId returns an id no known alternative has: a fixed one, a blank-only one, or a near miss of a known id.
+func unknownAlternativeId(g G, v *ReqView) string {
+	known := map[string]bool{}
+	for _, a := range v.Known {
+		known[a.Id] = true
+	}
+	for tries := 0; tries < 8; tries++ {
+		x := g.Pick("noSuchAlternative", " ", "\t", "   ", wrongName(g, v.Known[g.Int(0, len(v.Known)-1)].Id))
+		if x != "" && !known[x] {
+			return x
+		}
+	}
+	return "noSuchAlternative"
+}
+
+// padMissing adds, one time in three, an entry for an undeclared id to an object that has just lost the entry
+// of a declared one: the number of entries is right again, a declared criterion is still missing.
+func padMissing(g G, m M, val interface{}) {
+	if m != nil && g.Chance(1, 3) {
+		m["zz_undeclared"] = val
+	}
+}
+
 var mutOps = []mutOp{
 	{"unknownMethod", func(g G, req M, v *ReqView) bool {
 		req["preferenceFunction"] = g.Pick("noSuchMethod", "WeightedSum", "electre", "owa ", wrongName(g, allMethods...))
@@ -116,7 +139,7 @@ var mutOps = []mutOp{
 	}},
 	{"anchoringUnknownAlternative", func(g G, req M, v *ReqView) bool {
 		firstBias(req, M{"name": "anchoring", "props": M{
-			"anchoringAlternatives": []interface{}{M{"alternative": "noSuchAlternative", "coefficient": 1}},
+			"anchoringAlternatives": []interface{}{M{"alternative": unknownAlternativeId(g, v), "coefficient": 1}},
 			"loss":                  M{"function": "linear", "params": M{"a": 1, "b": 0}},
 			"gain":                  M{"function": "linear", "params": M{"a": 1, "b": 0}},
 			"referencePoints":       M{"function": "ideal"},
@@ -170,7 +193,9 @@ var mutOps = []mutOp{
 	{"missingCriterionValue", func(g G, req M, v *ReqView) bool {
 		as := asL(req["knownAlternatives"])
 		a := as[g.Int(0, len(as)-1)].(M)
-		delete(a["criteria"].(M), v.Criteria[g.Int(0, len(v.Criteria)-1)].Id)
+		cm := a["criteria"].(M)
+		delete(cm, v.Criteria[g.Int(0, len(v.Criteria)-1)].Id)
+		padMissing(g, cm, 1.0)
 		return true
 	}},
 	{"missingWeight", func(g G, req M, v *ReqView) bool {
@@ -179,12 +204,14 @@ var mutOps = []mutOp{
 		switch v.Method {
 		case "weightedSum", "owa", "majorityHeuristic", "aspectEliminationHeuristic":
 			delete(asM(mp["weights"]), cid)
+			padMissing(g, asM(mp["weights"]), 1.0)
 		case "choquetIntegral":
 			w := asM(mp["weights"])
 			ks := sortedKeys(w)
 			delete(w, ks[g.Int(0, len(ks)-1)])
 		case "electreIII":
 			delete(asM(mp["electreCriteria"]), cid)
+			padMissing(g, asM(mp["electreCriteria"]), M{"k": 1.0})
 		case "satisfactionHeuristic":
 			// explicit thresholds are validated when the method evaluates: claimed only if no
 			// omission can drop the criterion first (a missing threshold is not in the documented list)
@@ -192,7 +219,9 @@ var mutOps = []mutOp{
 				return false
 			}
 			ths := asL(asM(mp["params"])["thresholds"])
-			delete(ths[g.Int(0, len(ths)-1)].(M), cid)
+			lv := ths[g.Int(0, len(ths)-1)].(M)
+			delete(lv, cid)
+			padMissing(g, lv, 0.5)
 		}
 		return true
 	}},
@@ -219,7 +248,9 @@ var mutOps = []mutOp{
 			return false
 		}
 		ths := asL(asM(v.MP["params"])["thresholds"])
-		delete(ths[g.Int(0, len(ths)-1)].(M), v.Criteria[g.Int(0, len(v.Criteria)-1)].Id)
+		lv := ths[g.Int(0, len(ths)-1)].(M)
+		delete(lv, v.Criteria[g.Int(0, len(v.Criteria)-1)].Id)
+		padMissing(g, lv, 0.5)
 		return true
 	}},
 	{"missingWeightsObject", func(g G, req M, v *ReqView) bool {
@@ -326,7 +357,7 @@ var mutOps = []mutOp{
 		ch := asL(req["choseToMake"])
 		pos := g.Int(0, len(ch))
 		nc := append([]interface{}{}, ch[:pos]...)
-		nc = append(nc, "noSuchAlternative")
+		nc = append(nc, unknownAlternativeId(g, v))
 		req["choseToMake"] = append(nc, ch[pos:]...)
 		return true
 	}},
@@ -334,7 +365,7 @@ var mutOps = []mutOp{
 		if v.Method != "majorityHeuristic" && v.Method != "satisfactionHeuristic" {
 			return false
 		}
-		v.MP["currentChoice"] = "noSuchAlternative"
+		v.MP["currentChoice"] = unknownAlternativeId(g, v)
 		return true
 	}},
 }
